@@ -80,7 +80,10 @@ def header(pk, k):
         if kind != "co" and r == "await":
             r = "dtor"
         rel[p] = r
-    return {"P": pk, "rel": rel}
+    h = {"P": pk, "rel": rel}
+    if "co" not in pk.values():
+        h["nowarm"] = True      # no coroutine anywhere: the thread-local ready queue must never be touched (C20)
+    return h
 
 
 def run_mix(ctx, rp, mix, tag, max_paths=None, workers=4):
